@@ -7,6 +7,10 @@ case = {"netlist": [lines],
         "points": ["p/q", ...]    rational t > 0 at which the oracle evaluates the laws
         "causal_expected": bool   (generator's knowledge: all sources causal, no initial state)
         "switch": {...}           optional: convert_IVP experiment (see run_switch)
+        "subs": {symbol: "p/q"}   optional: the netlist has SYMBOLIC element values; every result of Lcapy (time and s-domain)
+                                  is specialised at this rational point before it is parsed / handed to the oracle;
+                                  "regular_point": do the poles keep their generic multiplicities at the point,
+                                  "undefined_at_point": the specialised closed form is nan / zoo
         "timeout": seconds}
 result = {"flags": {...Analysis flags of the real circuit...},
           "q": [ {"time": normal form | {"unparsed": ..}, "sdom": [{"T","B","A","Q","ts"}] | {"error"},
@@ -452,7 +456,16 @@ def run_oracle(case, raw, flags):
 
     def zero(val, li, what):
         try:
-            if not is_zero_exact(val):
+            try:
+                z = is_zero_exact(val)
+            except NotExact:
+                # a closed form specialised from symbolic element values may spell Gaussian rationals with radicals
+                # (sqrt(L1) at L1 = 2/25): exact symbolic normalisation, then the same exact decision
+                try:
+                    z = is_zero_exact(sym.expand(val))
+                except NotExact:
+                    z = is_zero_exact(sym.simplify(sym.expand(val)))
+            if not z:
                 bad.append({'law': li, 'what': what})
         except NotExact as ex:
             bad.append({'law': li, 'what': 'undecided: ' + str(ex)[:80], 'undecided': True})
@@ -566,17 +579,64 @@ def circuit_flags(c):
     return fl
 
 
+def specialise(e, subs, var):
+    """value of a symbolic result at the rational point subs = {symbol name: "p/q"}; every symbol other than
+    `var` must be given (a left-over symbol is an error of the harness, not a verdict)"""
+    m = {x: Rational(subs[x.name]) for x in e.free_symbols if x != var and x.name in subs}
+    e2 = e.subs(m)
+    left = e2.free_symbols - {var}
+    if left:
+        raise ValueError('symbols left after substitution: %s' % sorted(str(x) for x in left))
+    return e2
+
+
+def regular_point(se, subs):
+    """Is the point subs REGULAR for the symbolic s-domain value se: do its poles keep their generic multiplicities
+    (the squarefree part of the denominator has the same degree in s before and after the substitution and the leading
+    coefficient does not vanish)?  At a regular point the closed form built from the generic poles is defined, so an
+    undefined value (nan / zoo) there is a defect; at a degenerate point (a natural frequency meets another one or a
+    pole of the source) the generic closed form need not be defined.  True / False / None (not decidable here)."""
+    try:
+        den = sym.denom(sym.together(se))
+        if den.has(sym.exp):
+            den = sym.Mul(*[f for f in sym.Mul.make_args(sym.powsimp(den)) if not f.has(sym.exp)])
+        if not den.is_polynomial(S):
+            return None
+        P = sym.Poly(den, S)
+        m = {x: Rational(subs[x.name]) for x in den.free_symbols if x != S and x.name in subs}
+        Pp = sym.Poly(den.subs(m), S)
+        if Pp.free_symbols_in_domain:
+            return None
+        return bool(Pp.degree() == P.degree() and Pp.sqf_part().degree() == P.sqf_part().degree())
+    except CaseTimeout:
+        raise
+    except Exception:
+        return None
+
+
+def undefined_value(e):
+    return any(e.has(x) for x in (sym.nan, sym.zoo, sym.oo, sym.S.NegativeInfinity))
+
+
 def run_circuit(case):
     c = Circuit()
     for line in case['netlist']:
         c.add(line)
     out = {'flags': circuit_flags(c), 'q': []}
     raw = []
+    subs = case.get('subs')
     for q in case['quants']:
         r = {}
         try:
             tv, sv = get_quant(c, q)
             te = tv.sympy
+            if subs:
+                # circuit solved with SYMBOLIC element values: the closed form is specialised at the generator's rational point
+                r['symbolic_time_text'] = str(te)[:300]
+                r['regular_point'] = regular_point(sv.sympy, subs)
+                te = specialise(te, subs, Tt)
+                if undefined_value(te):
+                    r['undefined_at_point'] = True
             raw.append(te)
             r['time_text'] = str(te)[:300]
             try:
@@ -586,6 +646,9 @@ def run_circuit(case):
             except ValueError as ex:
                 r['time'] = {'unparsed': 'ValueError: ' + str(ex)[:160]}
             se = sv.sympy
+            if subs:
+                r['symbolic_sdom_text'] = str(se)[:300]
+                se = specialise(se, subs, S)
             r['sdom_text'] = str(se)[:300]
             try:
                 r['sdom'] = sdom_cert(se)
